@@ -308,7 +308,7 @@ pub fn run_c20(cfg: &RunCfg, trace: bool) -> RunOut {
     let mut fired_points = 0u64;
     'ops: for i in 0..cfg.ops.len() {
         // phase A: count the calls op i makes into the chosen nodes
-        let count_plan = FaultPlan { op_index: i, k: u64::MAX, sticky: false, kind: "Other".into(), nodes };
+        let count_plan = FaultPlan { op_index: i, k: u64::MAX, sticky: false, kind: "Other".into(), nodes, handles_only: false };
         let n_calls = match run_point(cfg, i, Some(&count_plan), &mut out, false) {
             Ok(po) => po.calls,
             Err(_) => break 'ops,
@@ -320,7 +320,7 @@ pub fn run_c20(cfg: &RunCfg, trace: bool) -> RunOut {
                 if sticky && !sticky_too {
                     continue;
                 }
-                let plan = FaultPlan { op_index: i, k, sticky, kind: kinds[((k as usize) + i) % kinds.len()].into(), nodes };
+                let plan = FaultPlan { op_index: i, k, sticky, kind: kinds[((k as usize) + i) % kinds.len()].into(), nodes, handles_only: false };
                 points += 1;
                 out.steps += 1;
                 match run_point(cfg, i, Some(&plan), &mut out, false) {
@@ -362,7 +362,7 @@ pub fn run_c20(cfg: &RunCfg, trace: bool) -> RunOut {
                         if let Some((key, detail, step)) = v {
                             out.violations.push(Violation { property: "C20".into(), key, detail, step });
                             let mut single = cfg.clone();
-                            single.fault = Some(FaultPlan { op_index: i, k, sticky: false, kind: "Other".into(), nodes: u64::MAX });
+                            single.fault = Some(FaultPlan { op_index: i, k, sticky: false, kind: "Other".into(), nodes: u64::MAX, handles_only: false });
                             single.extra.insert("async_point".into(), "1".into());
                             out.cfg_override = Some(serde_json::to_value(single).unwrap());
                             break 'aops;
